@@ -66,6 +66,9 @@ impl Finds {
         let lobj = &st.store.lang;
         let tok = st.tok_record(&rec.1);
         let alpha = gen::lower_alphabet(lang);
+        if tok.words.len() > 20 {
+            cx.count("titles with more than 20 words");
+        }
         let mut report = |cx: &mut Cx, clause: &str, q: &str, got: &Vec<usize>, extra: serde_json::Value| {
             cx.fail(
                 clause,
@@ -303,6 +306,87 @@ impl Finds {
     }
 }
 
+/// Function words of >= 5 letters per language (workload only: edits of these often spell
+/// *another* function word, e.g. though/through, после/подле).
+pub fn long_function_words() -> Vec<(&'static str, &'static str)> {
+    let table: [(&str, &str); 6] = [
+        ("en", "since before untill beside under below above across through towards about after although because either though unless until whatever whenever where whereas wherever whether which whichever while whilst whoever whomever whose"),
+        ("de", "einem einen einer eines durch entlang gegen hinter neben anstatt bevor damit entweder nachdem obwohl seitdem sobald sofern sondern soweit sowie sowohl während weder schon etwas ruhig soweiso"),
+        ("es", "abajo alrededor antes aquellos arriba contra dentro desde durante encima entre estos fuera hacia hasta opuesto próximo salvo sobre aunque entonces excepto porque"),
+        ("fr", "après avant cette comme contre depuis derrière entre malgré opposé prochain selon ensuite lorsque pourquoi puisque quand quoique"),
+        ("pt", "abaixo acima antes aproximadamente aquela aquele aqueles atrás conforme contra depois desde distante durante entre estas estes exceto oposto perto próximo sobre agora contudo enquanto então porém porque portanto quando todavia"),
+        ("ru", "благодаря ввиду вдоль вместо внутри внутрь возле вокруг вопреки впереди вследствие кроме между напротив насчет около перед передо подле позади помимо после посреди посредством против путём сверх свыше сквозь среди через будто впрочем ежели если зато именно когда которая которого которое котором которую которые который которых лишь настолько однако покамест покуда пускай пусть словно также точно хотя чтобы здесь неужели пожалуй почти просто разве только угодно"),
+    ];
+    let mut out = vec![];
+    for (lang, words) in table.iter() {
+        for w in words.split(' ') {
+            out.push((*lang, w));
+        }
+    }
+    out
+}
+
+impl Finds {
+    /// C04 with every letter of the alphabet at every position (not one random letter).
+    fn typo_exhaustive(&self, cx: &mut Cx, lang: &'static str, word: &str) {
+        let title = if cx.rng.chance(1, 2) { word.to_string() } else { format!("{} {}", word, gen::rand_word(&mut cx.rng, &gen::lower_alphabet(lang), 3, 6)) };
+        let rec: Rec = (1, title, 3);
+        let st = St::build_sentinel(lang, &[rec.clone()], 5);
+        let tok = st.tok_record(&rec.1);
+        if tok.words.is_empty() {
+            return;
+        }
+        let cs = word_chars(&tok, 0).to_vec();
+        let distinct: BTreeSet<char> = cs.iter().cloned().collect();
+        if !(cs.iter().all(|c| c.is_alphabetic()) && cs.len() >= 5 && distinct.len() >= 3) {
+            return;
+        }
+        if tok.words[0].is_function() {
+            cx.count("exhaustive-letter words that are function words");
+        }
+        let alpha = gen::lower_alphabet(lang);
+        let mut queries: Vec<(Vec<char>, &'static str)> = vec![];
+        for pos in 0..=cs.len() {
+            for &c in &alpha {
+                if pos < cs.len() && c != cs[pos] {
+                    let mut e = cs.clone();
+                    e[pos] = c;
+                    queries.push((e, "substitution"));
+                }
+                let mut e = cs.clone();
+                e.insert(pos, c);
+                queries.push((e, "insertion"));
+            }
+            if pos < cs.len() {
+                let mut e = cs.clone();
+                e.remove(pos);
+                queries.push((e, "deletion"));
+            }
+            if pos + 1 < cs.len() && cs[pos] != cs[pos + 1] {
+                let mut e = cs.clone();
+                e.swap(pos, pos + 1);
+                queries.push((e, "transposition"));
+            }
+        }
+        for (e, kind) in queries {
+            let q = s(&e);
+            if !oracle::stable(&st.store.lang, &q, &[&e[..]]) {
+                cx.count("skipped_unstable");
+                continue;
+            }
+            cx.ctx(format!("C04 exhaustive lang={} title={:?} q={:?}", lang, rec.1, q));
+            let got = st.search_ids(&q);
+            cx.eval();
+            cx.count("exhaustive-letter edits");
+            cx.key(hparts(&[lang, &q, &s(&cs)]));
+            if !got.contains(&rec.0) {
+                cx.fail("typo-not-found", json!({"lang": lang, "store": [rec.clone()], "limit": 5, "record": {"id": rec.0, "title": rec.1}, "query": q, "expected_id": rec.0, "got_ids": got,
+                    "info": {"word": s(&cs), "edit": kind, "letters": "every letter of the alphabet"}}));
+            }
+        }
+    }
+}
+
 impl Prop for Finds {
     fn id(&self) -> &'static str {
         match self.0 {
@@ -323,17 +407,17 @@ impl Prop for Finds {
     fn streams(&self) -> Vec<Stream> {
         match self.0 {
             Which::Prefix => vec![Stream::new("gen", 6400, 320000), Stream::new("vocab", 7, 7), Stream::new("corpus", 640, 3285 * 2)],
-            Which::Typo => vec![Stream::new("gen", 2400, 48000), Stream::new("vocab", 7, 7), Stream::new("corpus", 480, 3285 * 2)],
+            Which::Typo => vec![Stream::new("gen", 2400, 48000), Stream::new("vocab", 7, 7), Stream::new("corpus", 480, 3285 * 2), Stream::new("letters", 260, 2600)],
             Which::Whole => vec![Stream::new("gen", 12800, 640000), Stream::new("vocab", 7, 7), Stream::new("corpus", 1600, 3285 * 2)],
             Which::SplitJoin => vec![Stream::new("gen", 6400, 192000), Stream::new("vocab", 7, 7), Stream::new("corpus", 960, 3285 * 2)],
         }
     }
     fn floors(&self) -> Vec<(&'static str, u64, u64)> {
         match self.0 {
-            Which::Prefix => vec![("prefix len 1", 500, 5000), ("prefix len 2", 500, 5000), ("prefix len >3", 2000, 20000), ("word with stem < len", 200, 2000), ("function word", 20, 200), ("word > 20 letters", 20, 200)],
-            Which::Typo => vec![("substitution at first", 50, 500), ("insertion at first", 50, 500), ("deletion at first", 50, 500), ("transposition at first", 50, 500), ("transposition at last", 50, 500), ("len 5", 200, 2000), ("len >20", 100, 1000)],
-            Which::Whole => vec![("whole title", 1000, 10000), ("first last", 300, 3000), ("last first", 300, 3000), ("title with function word", 50, 500)],
-            Which::SplitJoin => vec![("split", 2000, 20000), ("split after first letter", 200, 2000), ("join", 100, 1000), ("join with 1-letter first word", 3, 30)],
+            Which::Prefix => vec![("prefix len 1", 500, 5000), ("prefix len 2", 500, 5000), ("prefix len >3", 2000, 20000), ("word with stem < len", 200, 2000), ("function word", 20, 200), ("word > 20 letters", 20, 200), ("titles with more than 20 words", 100, 1000)],
+            Which::Typo => vec![("substitution at first", 50, 500), ("insertion at first", 50, 500), ("deletion at first", 50, 500), ("transposition at first", 50, 500), ("transposition at last", 50, 500), ("len 5", 200, 2000), ("len >20", 100, 1000), ("titles with more than 20 words", 30, 300), ("exhaustive-letter edits", 50000, 500000), ("exhaustive-letter words that are function words", 150, 150)],
+            Which::Whole => vec![("whole title", 1000, 10000), ("first last", 300, 3000), ("last first", 300, 3000), ("title with function word", 50, 500), ("titles with more than 20 words", 200, 2000)],
+            Which::SplitJoin => vec![("split", 2000, 20000), ("split after first letter", 200, 2000), ("join", 100, 1000), ("join with 1-letter first word", 3, 30), ("titles with more than 20 words", 100, 1000)],
         }
     }
     fn ratios(&self) -> Vec<(&'static str, &'static str, f64, f64)> {
@@ -379,6 +463,19 @@ impl Prop for Finds {
                 for r in &recs {
                     self.check_record(cx, &st, &json!("all vocabulary words of the language, one record each"), r, &mut done);
                 }
+            }
+            "letters" => {
+                // every function word of >= 5 letters, then vocabulary words, with every letter of the alphabet
+                let fw = long_function_words();
+                let (lang, word): (&'static str, String) = if (idx as usize) < fw.len() {
+                    let (l, w) = fw[idx as usize];
+                    (LANGS.iter().find(|x| **x == l).copied().unwrap_or("none"), w.to_string())
+                } else {
+                    let lang = LANGS[(idx % 7) as usize];
+                    let v = gen::vocab(lang);
+                    (lang, cx.rng.pick(&v).to_string())
+                };
+                self.typo_exhaustive(cx, lang, &word);
             }
             "corpus" => {
                 let lang: &'static str = if idx % 2 == 0 { "en" } else { "none" };
